@@ -92,6 +92,14 @@ def sector_mask(case, symmetry_of_H=False):
     raise ValueError(cons)
 
 
+def h_symmetry_labels(case):
+    """label of every basis state under the full symmetry of the Hamiltonian: parity of the number of down spins for the transverse-field
+    Ising chain, the number of down spins / particles for the others."""
+    m, L = case['model'], case['L']
+    tot = np.array([sum(s) for s in itertools.product([0, 1], repeat=L)])
+    return tot % 2 if m['name'] == 'tfi' else tot
+
+
 def tfi_e_inf(J, g):
     f = lambda k: -np.sqrt(J * J + g * g - 2 * J * g * np.cos(k)) / np.pi
     return scipy.integrate.quad(f, 0, np.pi)[0]
@@ -117,20 +125,50 @@ def gen_model(rng):
 
 
 def gen_init(rng, model, L):
+    """'all initial product states': alternating, random, and the states that are exact eigenstates of a charge-conserving model (fully
+    polarised / empty / full: one-dimensional charge sector, every local eigenproblem is solved by the initial guess) or next to them."""
     style = rng.random()
-    if style < 0.5:
+    if style < 0.45:
         idx = [i % 2 for i in range(L)]
-    elif style < 0.7:
+    elif style < 0.6:
         idx = [(i + 1) % 2 for i in range(L)]
+    elif style < 0.72:
+        idx = [rng.randint(0, 1)] * L
+    elif style < 0.8:
+        idx = [rng.randint(0, 1)] * L
+        idx[rng.randrange(L)] ^= 1
     else:
         idx = [rng.randint(0, 1) for _ in range(L)]
-        if sum(idx) in (0, L):
-            idx[rng.randrange(L)] ^= 1
     names = {'tfi': ['up', 'down'], 'xxz': ['up', 'down'], 'longrange': ['up', 'down'], 'fermion': ['empty', 'full']}[model['name']]
     return idx, [names[i] for i in idx]
 
 
-def gen_case(rng, exact=False):
+def gen_lanczos_params(rng, exact=False, eig=False):
+    """the documented options of KrylovBased / LanczosGroundState (tenpy/linalg/krylov_based.py), drawn independently of each other."""
+    lp = {}
+    if rng.random() < (0.7 if eig else 0.35):
+        lp['E_shift'] = rng.choice([-5.0, -2.5, -0.8, 0.7, 3.0, 10.0])
+    if rng.random() < 0.3:
+        lp['N_min'] = rng.choice([2, 3, 5])
+    if rng.random() < 0.3:
+        lp['N_max'] = rng.choice([8, 12, 30] if exact else [4, 6, 12, 30])
+    if rng.random() < 0.25:
+        lp['N_cache'] = rng.choice([2, 3, 5])
+    if rng.random() < 0.3:
+        lp['reortho'] = True
+    if rng.random() < 0.25:
+        lp['cutoff'] = rng.choice([1e-13, 1e-11, 1e-9])
+    if rng.random() < 0.25:
+        lp['P_tol'] = rng.choice([1e-14, 1e-12, 1e-9])
+    if rng.random() < 0.2:
+        lp['E_tol'] = rng.choice([1e-13, 1e-10])
+    if lp.get('N_max', 20) < lp.get('N_min', 2):
+        lp['N_max'] = lp['N_min']
+    return lp
+
+
+def gen_case(rng, exact=False, eig=False):
+    """eig: stratum for the eigensolver options (the Lanczos solver is in use for every local update, lanczos_params mostly non-default)"""
     model = gen_model(rng)
     L = rng.choice([3, 4, 4, 5, 5, 6, 6, 7, 8])
     if model['name'] == 'longrange':
@@ -144,11 +182,14 @@ def gen_case(rng, exact=False):
         mixer = rng.choice([True, 'SubspaceExpansion', 'DensityMatrixMixer'])
     chi = 16 if exact else rng.choice([2, 3, 4, 6, 8, 16, 16])
     opts = {'mixer': mixer, 'trunc_params': {'chi_max': chi, 'svd_min': rng.choice([1e-12, 1e-10, None])},
-            'diag_method': rng.choice(['default', 'lanczos', 'lanczos', 'arpack', 'ED_block']),
+            'diag_method': rng.choice(['default', 'lanczos'] if eig else ['default', 'default', 'lanczos', 'lanczos', 'arpack', 'ED_block']),
             'combine': rng.random() < 0.5, 'max_sweeps': 12 if exact else rng.choice([2, 4, 6]), 'min_sweeps': rng.choice([1, 2]),
             'N_sweeps_check': 1, 'max_E_err': 1e-12 if exact else rng.choice([1e-8, 1e-12]),
-            'lanczos_params': rng.choice([{}, {'N_cache': 3, 'N_max': 12}, {'reortho': True}, {'N_min': 3, 'N_max': 30}])}
+            'lanczos_params': gen_lanczos_params(rng, exact, eig)}
     opts['max_trunc_err'] = 10.0
+    if opts['diag_method'] == 'default' and (eig or rng.random() < 0.5):
+        # 'default' uses Lanczos when the dimension of the effective Hamiltonian is not below max_N_for_ED (default 400)
+        opts['max_N_for_ED'] = rng.choice([0, 0, 2, 8] if eig else [0, 2, 8, 50])
     if mixer is not None:
         # documented usage: the mixer is switched off before the run ends (otherwise psi is returned with the perturbed, non-canonical tensors)
         da = rng.choice([2, 3])
@@ -164,8 +205,9 @@ def gen_case(rng, exact=False):
         del opts['trunc_params']['chi_max']
         opts['chi_list_reactivates_mixer'] = False
         opts['max_sweeps'] = max(opts['max_sweeps'], 4)
+    one_dim = sum(idx) in (0, L) and model.get('conserve', 'Sz') in ('Sz', 'N')
     if opts['diag_method'] == 'arpack':
-        if L < 5 or chi < 4 or 'chi_list' in opts:
+        if L < 5 or chi < 4 or 'chi_list' in opts or one_dim:
             opts['diag_method'] = 'lanczos'
         else:
             opts['lanczos_params'] = {}       # lanczos_arpack passes N_min as ncv
@@ -301,6 +343,7 @@ def main(ctx):
     mult = 1 if ctx.proof.ok else 2
     cases = [gen_case(rng) for _ in range(ctx.pick(60, 600) * mult)]
     cases += [gen_case(rng, exact=True) for _ in range(ctx.pick(24, 240) * mult)]
+    cases += [gen_case(rng, exact=bool(k % 2), eig=True) for k in range(ctx.pick(20, 200) * mult)]
     cases += [gen_inf(rng) for _ in range(ctx.pick(8, 40))]
     cases += [gen_inf_trace(rng) for _ in range(ctx.pick(24, 160) * mult)]
     cases += [gen_schedule_case(rng) for _ in range(ctx.pick(40, 200))]
@@ -379,16 +422,29 @@ def main(ctx):
             if abs(Eexp - r['E_mpo']) > 1e-9 * scale:
                 probs.append('H_MPO.expectation_value %.12g differs from dense <psi|H|psi> %.12g' % (r['E_mpo'], Eexp))
             terr = max(r['last_trunc_err'], 0.0)
-            tolE = 1e-8 * scale + 20 * scale * np.sqrt(terr) + 2 * r['max_E_trunc']
+            # E is the eigenvalue of the last local update, taken before its truncation; discarding the weight terr of a normalised state
+            # changes <H> by at most ~ 2 |H| sqrt(terr).  (The engine's own max_E_trunc is NOT used as slack: it is E_after - E_reported, so it
+            # would absorb any error of the reported eigenvalue.)
+            tolE = 1e-8 * scale + 20 * scale * np.sqrt(terr)
             if abs(r['E'] - Eexp) > tolE:
                 probs.append('reported E = %.12g, <psi|H|psi> = %.12g (truncation error of the last sweep %.2e)' % (r['E'], Eexp, terr))
-            if Eexp < E0 - 1e-10 * scale or r['E'] < E0 - 1e-9 * scale - 2 * r['max_E_trunc']:
+            # (the reported eigenvalue of an effective Hamiltonian is the expectation value of H in a normalised state of the sector: variational)
+            if Eexp < E0 - 1e-10 * scale or r['E'] < E0 - 1e-9 * scale:
                 probs.append('energy below the exact ground-state energy of the sector: E = %.12g, <H> = %.12g, E0 = %.12g' % (r['E'], Eexp, E0))
             if case.get('exact'):
-                mask2 = sector_mask(case, symmetry_of_H=True)
-                w, V2 = np.linalg.eigh(H[np.ix_(mask2, mask2)])
-                V = np.zeros((int(mask.sum()), V2.shape[1]), dtype=complex)
-                V[mask2[mask], :] = V2
+                # the ground state "of the sector": of the explicitly conserved charge (mask), or - when the model conserves less than H does -
+                # of the symmetry sector of H in which the returned state lies (the Krylov space of a Lanczos update cannot leave the symmetry
+                # sector of its start vector, the mixers are built from H; diag_method ED_block / default -> ED is documented to move between
+                # them: "if you don't preserve a charge explicitly, it can break it", after which Lanczos updates stay in the new one)
+                lab = h_symmetry_labels(case)
+                wts = {int(l): np.linalg.norm(psi[mask & (lab == l)]) for l in set(lab[mask].tolist())}
+                mask2 = mask & (lab == max(wts, key=wts.get))
+                w2, V2 = np.linalg.eigh(H[np.ix_(mask2, mask2)])
+                if w2[0] > E0 + 1e-9 * scale and abs(r['E'] - w2[0]) < abs(r['E'] - E0):      # (same energy: the eigenspace of the explicit sector)
+                    w = w2
+                    V = np.zeros((int(mask.sum()), V2.shape[1]), dtype=complex)
+                    V[mask2[mask], :] = V2
+                hist['exact_in_symmetry_sector_of_H_only'] = hist.get('exact_in_symmetry_sector_of_H_only', 0) + (w2[0] > E0 + 1e-7 * scale)
                 E0x = w[0]
             else:
                 E0x = E0
@@ -409,6 +465,14 @@ def main(ctx):
             hist['mixer'] += opts.get('mixer') is not None
             hist['single'] += case['engine'] == 'single'
             hist['complex'] += bool(np.abs(H.imag).max() > 0)
+            lp = opts.get('lanczos_params') or {}
+            nl = r.get('N_lanczos_last') or [-1]
+            for k_ in ('E_shift', 'N_min', 'N_max', 'N_cache', 'reortho', 'cutoff', 'P_tol', 'E_tol'):
+                hist['lanczos_' + k_] = hist.get('lanczos_' + k_, 0) + (k_ in lp and nl[-1] >= 1)
+            hist['lanczos_in_use'] = hist.get('lanczos_in_use', 0) + (nl[-1] >= 1)
+            hist['krylov_dim_1_last_update'] = hist.get('krylov_dim_1_last_update', 0) + (nl[-1] == 1)
+            hist['krylov_dim_1_last_update_with_E_shift'] = hist.get('krylov_dim_1_last_update_with_E_shift', 0) + (nl[-1] == 1 and 'E_shift' in lp)
+            hist['one_dim_sector'] = hist.get('one_dim_sector', 0) + (int(mask.sum()) == 1)
             # ---- environment trace: freshness on the implementation, stored sets vs model
             steps = r.get('steps') or []
             hist['steps'] += len(steps)
@@ -454,7 +518,7 @@ def main(ctx):
             ctx.count(stream, [case['model'], case['engine'], opts], nontrivial=True,
                       sample={'model': m, 'engine': case['engine'], 'E': r['E'], 'exact': float(e_exact), 'chi': r['chi']})
         if probs:
-            ctx.fail('oracle', '; '.join(probs[:4]), {'stream': stream, 'case': case, 'impl': {k: r[k] for k in ('E', 'E_mpo', 'sweeps', 'chi')}},
+            ctx.fail('oracle', '; '.join(probs[:4]), {'stream': stream, 'case': case, 'impl': {k: r.get(k) for k in ('E', 'E_mpo', 'sweeps', 'chi', 'N_lanczos_last')}},
                      match_key='C13:' + stream)
     bad, err = common.coq_failing_indices('cases_c13_s', ['Base.Prelude', 'Model.Sweep'], 'check_schedule', coq_s)
     if err:
@@ -497,6 +561,9 @@ def main(ctx):
 
 
 RULE = ('finite chains of 3-8 sites: TFI, XXZ, spinless fermions, longer-range spin chains with complex couplings (conserve Sz/N/parity/None, '
-        'explicit_plus_hc), alternating/random initial product states, engines TwoSite/SingleSite DMRG x mixers None/default/DensityMatrixMixer/'
-        'SubspaceExpansion x diag_method default/lanczos/arpack/ED_block x chi_max 2-16 / chi_list x combine; infinite: iDMRG and VUMPS '
+        'explicit_plus_hc), alternating/random/fully polarised (one-dimensional sector, exact eigenstate) initial product states, engines '
+        'TwoSite/SingleSite DMRG x mixers None/default/DensityMatrixMixer/SubspaceExpansion x diag_method default (max_N_for_ED 0-50: Lanczos '
+        'forced)/lanczos/arpack/ED_block x lanczos_params (E_shift +/-, N_min, N_max, N_cache, reortho, cutoff, P_tol, E_tol; incl. last updates '
+        'with Krylov dimension 1) x chi_max 2-16 / chi_list x combine; reported E vs dense <psi|H|psi> within 20|H|sqrt(trunc_err) (the '
+        'engine\'s own E_trunc is not used as slack) and E >= E0(sector) without slack; infinite: iDMRG and VUMPS '
         '(single/two-site) on TFI and Heisenberg vs closed-form energies.  distinct = distinct (model, L, engine, initial state, options).')
